@@ -144,6 +144,58 @@ func c13UTF8Sample(r *zzverif.Rng, f func(ch string, low, size int)) {
 	}
 }
 
+// c13FoldFamily: the DIRECTED family "every string that strings.EqualFold maps onto a default part or onto a stored
+// spelling": for each base part, every single-character substitution by a simple-fold partner (LONG S for s/S, KELVIN
+// SIGN for k/K, the other letter case), placed in host, namespace, model and tag position of an otherwise default name,
+// in fully written and in abbreviated (defaults merged in) form.  f gets the name string and its four intended parts.
+func c13FoldFamily(f func(name string, parts [4]string, pos int)) {
+	bases := []string{"registry.ollama.ai", "library", "latest", "mistral", "Phi-3.5k", "ks", "_sk", "K"}
+	def := [4]string{"registry.ollama.ai", "library", "m", "latest"}
+	seen := map[string]bool{}
+	for _, b := range bases {
+		var variants []string
+		for i := 0; i < len(b); i++ {
+			c := b[i]
+			var subs []string
+			switch {
+			case c == 's' || c == 'S':
+				subs = append(subs, "\u017f")
+			case c == 'k' || c == 'K':
+				subs = append(subs, "\u212a")
+			}
+			if c >= 'a' && c <= 'z' || c >= 'A' && c <= 'Z' {
+				subs = append(subs, string([]byte{c ^ 0x20}))
+			}
+			for _, sub := range subs {
+				variants = append(variants, b[:i]+sub+b[i+1:])
+			}
+		}
+		variants = append(variants, b, strings.ToUpper(b))
+		for _, v := range variants {
+			for pos := 0; pos < 4; pos++ {
+				p := def
+				p[pos] = v
+				full := p[0] + "/" + p[1] + "/" + p[2] + ":" + p[3]
+				names := []string{full}
+				switch pos { // abbreviated forms in which the other parts come from the defaults
+				case 1:
+					names = append(names, p[1]+"/"+p[2])
+				case 2:
+					names = append(names, p[2], p[2]+":"+p[3])
+				case 3:
+					names = append(names, p[2]+":"+p[3])
+				}
+				for _, nm := range names {
+					if !seen[nm] {
+						seen[nm] = true
+						f(nm, p, pos)
+					}
+				}
+			}
+		}
+	}
+}
+
 func c13Replay(out *zzverif.Out, line string) {
 	f := strings.Fields(line)
 	switch {
@@ -185,6 +237,12 @@ func TestVerifC13(t *testing.T) {
 	zzverif.C13Exhaustive(zzverif.C13Alphabet, zzverif.EnvInt("VERIF_EXH", 3), func(s string) {
 		c13NameCase(out, s)
 		out.Count("exhaustive_name")
+	})
+	// directed: Unicode-fold / case spellings of the defaults and of stored names, in every position
+	c13FoldFamily(func(nm string, parts [4]string, pos int) {
+		c13NameCase(out, nm)
+		c13PartCase(out, pos, parts[pos])
+		out.Count("fold_family")
 	})
 	// valid multi-byte characters, per low-byte class, as a part (alone / after / before / inside ASCII) and inside names
 	c13UTF8Sample(root.Fork(), func(ch string, low, size int) {
